@@ -40,6 +40,7 @@ type HarnessCfg struct {
 	Solver   string             `json:"solver"`
 	IntMode  bool               `json:"intmode"`
 	Sched    bool               `json:"sched"`
+	Native   *bool              `json:"native"` // false: counterexamples are replayed in the interpreter only
 	Preempt  int                `json:"preempt"`
 	Reach    []string           `json:"reach_required"`
 	Tiers    map[string]TierCfg `json:"tiers"`
@@ -500,6 +501,7 @@ func cmdCheck(args []string) int {
 		return b, nil
 	}
 	exit := 0
+	interpOnly := 0
 	var notes []string
 	for _, vr := range viols {
 		for i := range known.Findings {
@@ -507,6 +509,12 @@ func cmdCheck(args []string) int {
 			if f.Status == "known" && f.matches(prop, vr.v) {
 				vr.known = f
 			}
+		}
+		if hc := byH[vr.v.Harness]; hc != nil && hc.cfg.Native != nil && !*hc.cfg.Native {
+			// no native twin for this harness: the counterexample is the engine's deterministic decision path
+			vr.status = "confirmed"
+			interpOnly++
+			continue
 		}
 		bin, err := getBin(vr.pkg, vr.sched)
 		if err != nil {
@@ -537,6 +545,9 @@ func cmdCheck(args []string) int {
 	wOK, wBad := 0, 0
 	var wMismatch []string
 	for _, wr := range wits {
+		if hc := byH[wr.w.Harness]; hc != nil && hc.cfg.Native != nil && !*hc.cfg.Native {
+			continue
+		}
 		bin, err := getBin(wr.pkg, wr.sched)
 		if err != nil {
 			fmt.Fprintln(os.Stderr, err)
@@ -743,6 +754,7 @@ func cmdCheck(args []string) int {
 			"counterexamples_confirmed":     confirmed,
 			"counterexamples_known":         knownN,
 			"counterexamples_unconfirmed":   unconfirmed,
+			"counterexamples_replayed_in_the_interpreter_only": interpOnly,
 			"known_findings_matched":        knownList,
 			"notes":                         notes,
 		},
